@@ -42,3 +42,214 @@ let () = Reg.register "c08.rule" (fun inp out ->
        !bad
      | _ -> "bad:unparsable") in
   (model, verdict))
+
+(* ---------------------------------------------------------------------------------------------------------
+   c08.gen: generated parsers of random grammars with conflict points  'k' (?= ...) body -> Alt.
+   Case input: ((tm ..) (opts ..) (ntok n) (preds ..) (las ..) (points ..) [(inputs ..)]), see
+   harness/cmd/verifharness/c08gen.go. Model: Gram/LookaheadRun.v (group / select_on) + Gram/Lookahead.v. *)
+open LookaheadRun
+
+let field name x =
+  match Stdlib.List.find_opt (fun e -> match e with L (A n :: _) -> n = name | _ -> false) (lst x) with
+  | Some (L [_; v]) -> v
+  | _ -> failwith ("c08.gen: missing field " ^ name)
+
+let get_lits x = get_list (fun p -> match lst p with [i; n] -> (get_z i, get_bool n) | _ -> failwith "lit") x
+let get_seqs x = get_list (fun s -> get_list get_z s) x
+
+type g_alt = { g_sym : int; g_lits : (coq_Z * bool) list; g_first : int list; g_name : string }
+type g_spec = {
+  s_ntok : int;
+  s_defs : pdef list;
+  s_nested : (int * (coq_Z * bool) list * int list) list list;   (* per guarded predicate, per side: guard nonterminal, guard, first tokens *)
+  s_las : (int * (coq_Z * bool) list) list;             (* compiled lookahead nonterminals *)
+  s_points : (int * g_alt list) list;
+}
+
+let firsts_of ntok seqs =
+  Stdlib.List.sort_uniq compare (Stdlib.List.concat_map (fun s -> match s with
+    | [] -> [] | h :: _ -> let h = int_of_z h in if h = -1 then Stdlib.List.init ntok (fun i -> i) else [h]) seqs)
+
+let get_spec x =
+  let ntok = get_int (field "ntok" x) in
+  let preds = lst (field "preds" x) in
+  let side x = (match lst x with [sym; g; sq] -> (get_int sym, get_lits g, get_seqs sq) | _ -> failwith "side") in
+  let defs = Stdlib.List.map (fun p -> match lst p with
+    | [i; sides] -> { p_input = get_z i; p_sides = Stdlib.List.map (fun x -> let (_, g, sq) = side x in (g, sq)) (lst sides) }
+    | _ -> failwith "pred") preds in
+  let nested = Stdlib.List.filter_map (fun p -> match lst p with
+    | [i; sides] when Stdlib.List.length (lst sides) > 1 && get_int i >= 0 ->
+      Some (Stdlib.List.map (fun x -> let (sym, g, sq) = side x in (sym, g, firsts_of ntok sq)) (lst sides))
+    | _ -> None) preds in
+  let las = get_list (fun la -> match lst la with [nt; ps] -> (get_int nt, get_lits ps) | _ -> failwith "la") (field "las" x) in
+  let points = get_list (fun p -> match lst p with
+    | [k; alts] -> (get_int k, get_list (fun a -> match lst a with
+        | [sym; lits; first; name] -> { g_sym = get_int sym; g_lits = get_lits lits; g_first = get_list get_int first; g_name = atom name }
+        | _ -> failwith "alt") alts)
+    | _ -> failwith "point") (field "points" x) in
+  { s_ntok = ntok; s_defs = defs; s_nested = nested; s_las = las; s_points = points }
+
+(* the alternatives of a point in the planner's order (ascending nonterminal = ascending lookahead index) *)
+let alts_of (p : g_alt list) : alt list =
+  Stdlib.List.map (fun a -> { a_la = { la_nonterm = z_of_int a.g_sym; la_preds = a.g_lits }; a_first = Stdlib.List.map z_of_int a.g_first })
+    (Stdlib.List.sort (fun a b -> compare a.g_sym b.g_sym) p)
+
+(* does the compiled grammar carry, for every alternative, the lookahead written in the source? *)
+let source_matches sp =
+  Stdlib.List.for_all (fun (_, alts) -> Stdlib.List.for_all (fun a ->
+    a.g_sym >= 0 && (match Stdlib.List.assoc_opt a.g_sym sp.s_las with Some ps -> ps = a.g_lits | None -> false)) alts) sp.s_points
+  && Stdlib.List.for_all (fun sides -> Stdlib.List.for_all (fun (sym, g, _) ->
+    sym >= 0 && (match Stdlib.List.assoc_opt sym sp.s_las with Some ps -> ps = g | None -> false)) sides) sp.s_nested
+
+(* the sets of lookahead nonterminals that conflict on some terminal (>= 2 members), from the source grammar *)
+let expected_groups sp =
+  let toks = Stdlib.List.init sp.s_ntok (fun i -> i) in
+  let from_points = Stdlib.List.concat_map (fun (_, alts) ->
+    Stdlib.List.map (fun t ->
+      Stdlib.List.map (fun a -> int_of_z a.a_la.la_nonterm) (LookaheadRun.group (alts_of alts) (z_of_int t))) toks) sp.s_points in
+  let from_nested = Stdlib.List.concat_map (fun sides ->
+    Stdlib.List.map (fun t ->
+      Stdlib.List.sort_uniq compare (Stdlib.List.filter_map (fun (sym, _, f) -> if Stdlib.List.mem t f then Some sym else None) sides)) toks) sp.s_nested in
+  Stdlib.List.sort_uniq compare (Stdlib.List.filter (fun g -> Stdlib.List.length g >= 2) (from_points @ from_nested))
+
+let las_of_group sp g =
+  Stdlib.List.map (fun s -> { la_nonterm = z_of_int s; la_preds = (match Stdlib.List.assoc_opt s sp.s_las with Some ps -> ps | None -> []) }) g
+
+let rule_text las = (match Lookahead.new_rule las with LaOk r -> put_rule r | LaErr w -> L [A "err"; put_z w])
+
+(* all assignments over the inputs of a set: when exactly one alternative holds the rule must return it;
+   no assignment may satisfy two alternatives of an accepted set *)
+let truth_table las r =
+  let inputs = Stdlib.List.sort_uniq compare (Stdlib.List.concat_map (fun la -> Stdlib.List.map (fun (i, _) -> int_of_z i) la.la_preds) las) in
+  let n = Stdlib.List.length inputs in
+  let ok = ref "ok" in
+  for mask = 0 to (1 lsl n) - 1 do
+    let rho z = (let i = int_of_z z in
+      let rec idx l k = (match l with [] -> -1 | x :: t -> if x = i then k else idx t (k + 1)) in
+      let k = idx inputs 0 in k >= 0 && (mask lsr k) land 1 = 1) in
+    (match Stdlib.List.filter (fun la -> Lookahead.holds rho la) las with
+     | [] -> ()
+     | [la] -> if Lookahead.eval_rule r rho <> la.la_nonterm then ok := "bad:table-rule-selects-alternative-whose-predicates-do-not-hold"
+     | _ -> if !ok = "ok" then ok := "bad:non-exclusive-set-accepted")
+  done;
+  !ok
+
+let () = Reg.register "c08.gen.tables" (fun inp out ->
+  let sp = get_spec inp in
+  let groups = expected_groups sp in
+  let model = L (Stdlib.List.map (fun g -> L [put_list put_int g; rule_text (las_of_group sp g)]) groups) in
+  let verdict =
+    if not (source_matches sp) then "bad:compiled-lookahead-differs-from-source" else
+    (try
+      let rules = Stdlib.List.map (fun r -> match lst r with
+        | [key; L [A "ok"; cases; dflt]] ->
+          (get_list get_int key,
+           { r_cases = get_list (fun c -> match lst c with [i; ng; t] -> ((get_z i, get_bool ng), get_z t) | _ -> failwith "case") cases;
+             r_default = get_z dflt })
+        | _ -> failwith "rule") (lst out) in
+      let tt = Stdlib.List.fold_left (fun acc (key, r) -> if acc <> "ok" then acc else truth_table (las_of_group sp key) r) "ok" rules in
+      if tt <> "ok" then tt
+      else if Stdlib.List.sort_uniq compare (Stdlib.List.map Stdlib.fst rules) <> groups
+      then "bad:table-rules-are-not-the-sets-of-conflicting-alternatives"
+      else "ok"
+    with Failure _ -> "bad:unparsable") in
+  (model, verdict))
+
+(* the tokens of a statement: key t1 t2 ';' *)
+let is_tok sp t = t >= 0 && t < sp.s_ntok
+
+let () = Reg.register "c08.gen.run" (fun inp out ->
+  let sp = get_spec inp in
+  let inputs = get_list (fun i -> get_list get_int i) (field "inputs" inp) in
+  let name_of alts nt = (match Stdlib.List.find_opt (fun a -> a.g_sym = nt) alts with Some a -> a.g_name | None -> "?") in
+  (* model: the LR parser of the grammar scheme  input : stmt+ ; stmt : key la first any ';' -> Name *)
+  let run toks =
+    let rec go toks evs n =
+      match toks with
+      | [] -> ((if n > 0 then "accept" else "syntax"), evs)
+      | k :: rest ->
+        (match Stdlib.List.assoc_opt k sp.s_points with
+         | None -> ("syntax", evs)
+         | Some alts ->
+           (match rest with
+            | t1 :: _ when not (is_tok sp t1) -> ("syntax", evs)
+            | _ ->
+              (match LookaheadRun.select_on (z_of_int sp.s_ntok) sp.s_defs (alts_of alts) (Stdlib.List.map z_of_int rest) with
+               | SelNone -> ("syntax", evs)
+               | SelErr _ -> ("rule-error", evs)
+               | SelOne nt ->
+                 (match rest with
+                  | _ :: t2 :: 100 :: rest' when is_tok sp t2 -> go rest' (evs @ [name_of alts (int_of_z nt)]) (n + 1)
+                  | _ -> ("syntax", evs))))) in
+    let (res, evs) = go toks [] 0 in
+    L (A res :: Stdlib.List.map (fun e -> A e) evs) in
+  let model = L (Stdlib.List.map run inputs) in
+  (* oracle: on every well-formed statement for which exactly one applicable alternative is satisfied, the
+     node reported by the generated parser must be that alternative's *)
+  let verdict =
+    if not (source_matches sp) then "bad:compiled-lookahead-differs-from-source" else
+    (try
+      let outs = lst out in
+      if Stdlib.List.length outs <> Stdlib.List.length inputs then "bad:unparsable" else begin
+        let bad = ref "ok" in
+        Stdlib.List.iter2 (fun toks o ->
+          let evs = (match lst o with A _ :: evs -> Stdlib.List.map atom evs | _ -> failwith "out") in
+          let rec stmts toks evs =
+            (match toks with
+             | k :: (t1 :: t2 :: 100 :: rest' as rest) when is_tok sp t1 && is_tok sp t2 && Stdlib.List.mem_assoc k sp.s_points ->
+               let alts = Stdlib.List.assoc k sp.s_points in
+               let rho = LookaheadRun.rho_at (z_of_int sp.s_ntok) sp.s_defs (Stdlib.List.map z_of_int rest) in
+               let applicable = Stdlib.List.filter (fun a -> Stdlib.List.mem t1 a.g_first) alts in
+               let holding = Stdlib.List.filter (fun a -> Lookahead.holds rho { la_nonterm = z_of_int a.g_sym; la_preds = a.g_lits }) applicable in
+               (match evs with
+                | [] ->
+                  if Stdlib.List.length holding = 1 && !bad = "ok" then bad := "bad:statement-with-unique-satisfied-alternative-rejected"
+                | e :: evs' ->
+                  (match holding with
+                   | [a] when Stdlib.List.length applicable >= 2 && e <> a.g_name ->
+                     bad := "bad:selected-alternative-whose-predicates-do-not-hold"
+                   | _ -> ());
+                  if not (Stdlib.List.exists (fun a -> a.g_name = e) applicable) && !bad = "ok" then bad := "bad:selected-inapplicable-alternative";
+                  stmts rest' evs')
+             | _ -> ()) in
+          stmts toks evs) inputs outs;
+        !bad
+      end
+    with Failure _ -> "bad:unparsable") in
+  (model, verdict))
+
+(* rejected grammars: input ((tm ..) (opts ..) (ntok n) (points ((key ((lits first) ..)) ..)) (nested ((guard ..) ..)));
+   literals carry predicate numbers; impl = (rejected ((why (exprs..)) ..) other-errors) *)
+let () = Reg.register "c08.gen.reject" (fun inp out ->
+  let ntok = get_int (field "ntok" inp) in
+  let toks = Stdlib.List.init ntok (fun i -> i) in
+  let points = get_list (fun p -> match lst p with
+    | [_; alts] -> get_list (fun a -> match lst a with [lits; first] -> (get_lits lits, get_list get_int first) | _ -> failwith "alt") alts
+    | _ -> failwith "point") (field "points" inp) in
+  let nested = get_list (fun p -> get_list get_lits p) (field "nested" inp) in
+  let norm g = Stdlib.List.sort_uniq compare g in
+  let groups =
+    Stdlib.List.sort_uniq compare (Stdlib.List.filter (fun g -> Stdlib.List.length g >= 2)
+      (Stdlib.List.concat_map (fun alts -> Stdlib.List.map (fun t ->
+          norm (Stdlib.List.filter_map (fun (l, f) -> if Stdlib.List.mem t f then Some l else None) alts)) toks) points
+       @ Stdlib.List.map norm nested)) in
+  let mk exprs = Stdlib.List.mapi (fun i l -> { la_nonterm = z_of_int (100 + i); la_preds = l }) exprs in
+  let put_expr l = put_list (fun (i, n) -> L [put_z i; put_bool n]) l in
+  let model, verdict =
+    (match lst out with
+     | [A "rejected"; reported; _] ->
+       let reps = get_list (fun r -> match lst r with [w; exprs] -> (get_z w, get_list get_lits exprs) | _ -> failwith "rep") reported in
+       (* every conflicting set the model rejects must be reported with the same reason; the message lists
+          (a subset of) its members *)
+       let m = Stdlib.List.filter_map (fun g ->
+         match Lookahead.new_rule (mk g) with
+         | LaOk _ -> None
+         | LaErr w ->
+           (match Stdlib.List.find_opt (fun (w', exprs) -> w' = w && Stdlib.List.for_all (fun e -> Stdlib.List.mem e g) exprs) reps with
+            | Some (_, exprs) -> Some (L [put_z w; put_list put_expr exprs])
+            | None -> Some (L [put_z w; put_list put_expr g]))) groups in
+       let m = Stdlib.List.sort_uniq compare (Stdlib.List.map to_string m) in
+       (L [A "rejected"; L (Stdlib.List.map (fun s -> parse s) m); A "0"],
+        "ok")   (* rejecting a grammar is always allowed by the statement *)
+     | _ -> (A "?", "bad:unparsable")) in
+  (model, verdict))
